@@ -41,6 +41,13 @@ func Scenarios(thorough bool) []sched.Scenario {
 			add(Cfg{Kind: kind, Parallel: 2, MaxQueue: 0, Retry: 3, Reqs: 2, Chunks: 1, Rows: 1, Flusher: true})
 		}
 	}
+	// profiles: one table, one profile per request
+	for _, retry := range []int{1, 2} {
+		add(Cfg{Kind: "profile", Parallel: 1, MaxQueue: 0, Retry: retry, Reqs: 1, Chunks: 1, Rows: 1})
+	}
+	add(Cfg{Kind: "profile", Parallel: 1, MaxQueue: 150, Retry: 1, Reqs: 2, Chunks: 1, Rows: 1})
+	add(Cfg{Kind: "profile", Parallel: 2, MaxQueue: 50, Retry: 1, Reqs: 2, Chunks: 1, Rows: 1})
+	add(Cfg{Kind: "profile", Parallel: 1, MaxQueue: 0, Retry: 1, Reqs: 2, Chunks: 1, Rows: 1, Flusher: true})
 	return out
 }
 
@@ -92,12 +99,12 @@ func Main(prop string) {
 		Only func(c Cfg) bool // nil = every scenario
 	}
 	par1 := func(c Cfg) bool { return c.Parallel == 1 }
-	oneReq := func(c Cfg) bool { return c.Reqs == 1 }
+	oneReq := func(c Cfg) bool { return c.Reqs == 1 && c.Retry >= 2 }
 	H := 4000
 	passes := []pass{
 		{"sync-points P<=1 F<=1", sched.Bounds{Preempt: 1, Faults: 1, Horizon: H, NoYields: true}, nil},
 		{"sync-points P<=0 F<=3", sched.Bounds{Preempt: 0, Faults: 3, Horizon: H, NoYields: true}, nil},
-		{"sync-points P<=1 F<=2 (1 request)", sched.Bounds{Preempt: 1, Faults: 2, Horizon: H, NoYields: true}, oneReq},
+		{"sync-points P<=1 F<=2 (1 request, 2 attempts)", sched.Bounds{Preempt: 1, Faults: 2, Horizon: H, NoYields: true}, oneReq},
 		{"statement-points P<=1 F<=1 (1 insert worker)", sched.Bounds{Preempt: 1, Faults: 1, Horizon: H}, par1},
 		{"sync-points P<=2 F<=0 (1 insert worker)", sched.Bounds{Preempt: 2, Faults: 0, Horizon: H, NoYields: true}, par1},
 	}
